@@ -34,10 +34,10 @@ ASSUMPTIONS = ["a crash is os._exit at the failpoint (no Python-level cleanup ru
                "bounded recovery: the first call after faults stop may recompute, the third must be served"]
 TIMEOUT = 1800
 WORKERS = {"quick": 16, "thorough": 16}
-SCENARIOS_QUICK = ["first", "same_bytes", "override", "override_shared", "exception", "big", "big_small_cache", "array_small_cache", "partition_chain"]
+SCENARIOS_QUICK = ["first", "same_bytes", "override", "override_shared", "override_next", "exception", "big", "big_small_cache", "array_small_cache", "partition_chain"]
 SCENARIOS_ALL = ["first", "same_bytes", "after_forget", "override", "none_override", "partition", "metadata_path",
                  "memory_cache", "exception", "big", "big_same_bytes", "big_small_cache", "array_small_cache", "partition_chain",
-                 "override_shared"]
+                 "override_shared", "override_next"]
 VARIANTS = ["crash-before", "crash-mid", "error", "error-write", "fsize"]
 BIG = 300 * 1024
 
@@ -54,7 +54,7 @@ def table(scenario):
     from twosigma.memento.partition import InMemoryPartition
     from twosigma.memento.result import KeyOverrideResult
 
-    if scenario in ("override", "override_shared"):
+    if scenario in ("override", "override_shared", "override_next"):
         return lambda: KeyOverrideResult("payload-" + "z" * 40, "ovr/key1")
     if scenario == "none_override":
         return lambda: KeyOverrideResult(None, "ovr/key1")
@@ -77,7 +77,7 @@ def table(scenario):
 def expected(scenario):
     from twosigma.memento.partition import InMemoryPartition
 
-    if scenario in ("override", "override_shared"):
+    if scenario in ("override", "override_shared", "override_next"):
         return ("ret", "payload-" + "z" * 40)
     if scenario == "none_override":
         return ("ret", None)
@@ -111,6 +111,13 @@ def install(root, scenario):
 
         for k in (1, 2):
             ffuncs.TABLE["setup|%d" % k] = (lambda k=k: KeyOverrideResult("earlier-%d-" % k + "e" * 30, "ovr/key1"))
+    if scenario == "override_next":
+        # after the fault, the next results written under the override key of the faulted call are those of two other
+        # calls (different values): nothing that the interrupted write left behind may end up as their result
+        from twosigma.memento.result import KeyOverrideResult
+
+        for k in (1, 2):
+            ffuncs.TABLE["later|%d" % k] = (lambda k=k: KeyOverrideResult("later-%d-" % k + "e" * 30, "ovr/key1"))
     return st
 
 
@@ -120,14 +127,15 @@ def others(scenario):
     from vf.recorder import REC
 
     out = []
-    if scenario == "override_shared":
+    if scenario in ("override_shared", "override_next"):
+        word = "setup" if scenario == "override_shared" else "later"
         for k in (1, 2):
             mark = REC.mark()
             try:
-                got = ffuncs.pair("setup", k)
+                got = ffuncs.pair(word, k)
             except Exception as e:
                 got = "raise %s: %s" % (type(e).__name__, str(e)[:100])
-            out.append([got == "earlier-%d-" % k + "e" * 30, len(REC.since(mark)), repr(got)[:80]])
+            out.append([got == ("earlier" if word == "setup" else "later") + "-%d-" % k + "e" * 30, len(REC.since(mark)), repr(got)[:80]])
     return out
 
 
@@ -251,8 +259,12 @@ def recovery_child(arg):
     from vf import ffuncs
 
     install(arg["root"], arg["scenario"])
+    # (in scenario override_next the other calls are the first to write after the fault, and are then made once more)
+    early = others(arg["scenario"]) if arg["scenario"] == "override_next" else None
     res = {"f": outcome(fn_f(arg["scenario"]), arg["scenario"]), "g": outcome(fn_g(arg["scenario"]), arg["scenario"]),
            "others": others(arg["scenario"])}
+    if early is not None:
+        res["others"] = [[a[0] and b[0], b[1], "%s, then %s" % (a[2], b[2])] for a, b in zip(early, res["others"])]
     if arg.get("forget"):
         # at the very end: the call is forgotten (whatever the interrupted write left behind) and made once more
         try:
@@ -384,7 +396,7 @@ def run_case(case):
                     out["obs"]["recovery_calls_judged"] += 1
                     if not ok:
                         fail("after the fault a call fails or returns a wrong value " + sigbase,
-                             "%s: fresh process %d, earlier call %d under the shared override key -> %s" % (label, k + 1, n_o + 1, shown))
+                             "%s: fresh process %d, other call %d under the shared override key -> %s" % (label, k + 1, n_o + 1, shown))
                     if k == 2 and ran:
                         fail("memoization does not recover: the body still runs in the third fresh process " + sigbase,
                              "%s: earlier call %d under the shared override key ran %s times in fresh processes 1/2/3"
